@@ -17,7 +17,7 @@ def main():
     rc, out = sh("git -C /repo status --porcelain")
     if out.strip():
         print("refusing: /repo working tree is not clean"); return 2
-    path = "/verif/seeded/MATRIX.json"
+    path = "/verif/seeded/MATRIX.json" if not os.environ.get("VERIF_SEED") else "/tmp/MATRIX.seed%s.json" % os.environ["VERIF_SEED"]
     matrix = json.load(open(path)) if os.path.exists(path) else {}
     for d in sorted(os.listdir("/verif/seeded")):
         if not os.path.isdir(f"/verif/seeded/{d}") or (want and d not in want and d.split("-")[0] not in want):
